@@ -193,7 +193,13 @@ func showRowsRid(m map[string][]ridRow) string {
 	return strings.Join(parts, " ")
 }
 
-func (c *ctx) rowidCase(a, b Schema, rows []rowSpec, bump bool, fk bool, desc string) {
+// a view or trigger of the current database (unmanaged by the community driver): its DDL and what the model keeps of it
+type depSpec struct {
+	ddl, name, on string
+	reads         []string
+}
+
+func (c *ctx) rowidCase(a, b Schema, rows []rowSpec, bump bool, fk bool, desc string, deps ...depSpec) {
 	id := c.id("r")
 	bg := context.Background()
 	l, err := openDB(c.dir, false, false)
@@ -206,6 +212,11 @@ func (c *ctx) rowidCase(a, b Schema, rows []rowSpec, bump bool, fk bool, desc st
 	for _, st := range rawSchema(a) {
 		if err := l.exec(st); err != nil {
 			return // not a usable base
+		}
+	}
+	for _, d := range deps {
+		if err := l.exec(d.ddl); err != nil {
+			panic(fmt.Sprintf("harness: %v (%s)", err, d.ddl))
 		}
 	}
 	var kept []rowSpec
@@ -253,6 +264,17 @@ func (c *ctx) rowidCase(a, b Schema, rows []rowSpec, bump bool, fk bool, desc st
 	for _, e := range seq0 {
 		line += " " + hx(e.name) + " " + strconv.FormatInt(e.seq, 10)
 	}
+	line += " " + strconv.Itoa(len(deps))
+	for _, d := range deps {
+		on := "~"
+		if d.on != "" {
+			on = hx(d.on)
+		}
+		line += " " + hx(d.name) + " " + on + " " + strconv.Itoa(len(d.reads))
+		for _, r := range d.reads {
+			line += " " + hx(r)
+		}
+	}
 	line += " " + tokCase(build("sqlite", b), b)
 	add("S0 ok")
 	if fk {
@@ -295,16 +317,57 @@ func (c *ctx) rowidCase(a, b Schema, rows []rowSpec, bump bool, fk bool, desc st
 	}
 	rowsAfter := readRowsRid(l, after)
 	seq1 := readSeq(l)
+	if len(deps) > 0 {
+		var names []string
+		if rs, err := l.db.Query("SELECT name FROM sqlite_master WHERE type IN ('view', 'trigger')"); err == nil {
+			for rs.Next() {
+				var n string
+				rs.Scan(&n)
+				names = append(names, n)
+			}
+			rs.Close()
+		}
+		sort.Strings(names)
+		add("DP " + strings.Join(names, ","))
+	}
 	add("RR " + showRowsRid(rowsAfter))
 	add("SQ " + showSeq(seq1))
-	if aerr != nil {
+	if len(deps) > 0 {
+		// tied whatever the outcome: the model says where the run stops (ALTER TABLE RENAME re-parses views and triggers)
+		c.w.Case(id, line, obs)
+		c.w.NonTrivial("deps:" + desc[:strings.LastIndexByte(desc, '/')])
+		if aerr != nil {
+			c.w.Count("rowid.refused-by-view-or-trigger")
+			if !strings.Contains(aerr.Error(), "error in view") && !strings.Contains(aerr.Error(), "error in trigger") {
+				c.w.Violation(id, "unexpected-refusal", fmt.Sprintf("%v [%s]", aerr, desc))
+			}
+			// no transaction: the rows must be somewhere -- under the table's name or under new_<name>
+			for _, ta := range a.Tables {
+				n0 := len(before[ta.Name])
+				n1, ok := len(rowsAfter[ta.Name]), false
+				if _, has := rowsAfter[ta.Name]; has {
+					ok = n1 == n0
+				} else if tmp, has := rowsAfter["new_"+ta.Name]; has {
+					ok = len(tmp) == n0
+				}
+				if !ok {
+					c.w.Violation(id, "rows-lost", fmt.Sprintf("table %s held %d rows; after the refused apply they are neither in %s nor in new_%s [%s]", ta.Name, n0, ta.Name, ta.Name, desc))
+				} else if _, has := rowsAfter[ta.Name]; !has {
+					c.w.Count("rowid.partial-state-rows-under-temp-name")
+				}
+			}
+			return
+		}
+	} else if aerr != nil {
 		// refused: by a constraint over the rows (the engine model has no CHECK / expression-index evaluation) or by a C01
 		// matter (known there); nothing is tied, the run only counts
 		c.w.Count("rowid.apply-refused")
 		c.w.ImplOnly(id, desc)
 		return
 	}
-	c.w.Case(id, line, obs)
+	if len(deps) == 0 {
+		c.w.Case(id, line, obs)
+	}
 	if len(rebuilt) > 0 && len(rows) > 0 {
 		c.w.NonTrivial(showSchemaChanges(cs, nil))
 	}
@@ -481,6 +544,31 @@ func runRowid(c *ctx) {
 			}
 			noNull = nil
 			c.rowidCase(fc.a, fc.b, rows, k%2 == 0, k%3 == 0, fmt.Sprintf("%s/%d", fc.desc, k))
+		}
+	}
+	// views and triggers over a rebuilt / altered table
+	viewDeps := []struct {
+		n string
+		d []depSpec
+	}{
+		{"view-on-t", []depSpec{{"CREATE VIEW vv AS SELECT * FROM t", "vv", "", []string{"t"}}}},
+		{"trigger-body-mentions-t", []depSpec{{"CREATE TRIGGER tr AFTER DELETE ON bystander BEGIN DELETE FROM t; END", "tr", "bystander", []string{"bystander", "t"}}}},
+		{"trigger-on-t", []depSpec{{"CREATE TRIGGER tr2 AFTER INSERT ON t BEGIN UPDATE bystander SET w = 'x'; END", "tr2", "t", []string{"t", "bystander"}}}},
+		{"view-on-bystander", []depSpec{{"CREATE VIEW vb AS SELECT k FROM bystander", "vb", "", []string{"bystander"}}}},
+		{"view-on-t-and-trigger-on-t", []depSpec{{"CREATE VIEW vv AS SELECT * FROM t", "vv", "", []string{"t"}}, {"CREATE TRIGGER tr2 AFTER INSERT ON t BEGIN UPDATE bystander SET w = 'x'; END", "tr2", "t", []string{"t", "bystander"}}}},
+	}
+	for fi, fc := range rowidFixed() {
+		if fi > 5 && !c.thorough {
+			continue
+		}
+		for vi, vd := range viewDeps {
+			var rows []rowSpec
+			noNull = aliasCols(fc.b)
+			for _, t := range fc.a.Tables {
+				rows = append(rows, rowidRows(fg, t, 4)...)
+			}
+			noNull = nil
+			c.rowidCase(fc.a, fc.b, rows, vi%2 == 0, (fi+vi)%2 == 0, fmt.Sprintf("%s+%s/%d", fc.desc, vd.n, vi), vd.d...)
 		}
 	}
 	pg := &G{r: c.r, plain: true}
